@@ -1,4 +1,4 @@
-\* quick: <=2 groups over 2 names, 2 classes, <=1 record/group, counts 1..2, endpoints {00,10}
+\* thorough: <=2 groups over 2 names, 2 classes, <=1 record/group, counts 1..2, endpoints {00,10,01}
 SPECIFICATION Spec
 CONSTANTS
   UnitSeq <- U2
@@ -7,7 +7,7 @@ CONSTANTS
   MaxRecs = 1
   MaxCount = 2
   MCountMin = 1
-  EpVals <- EpOne
+  EpVals <- EpGrp
   ChainCanonical = FALSE
   TenantMode = "forall"
   ExportMode = "focus"
